@@ -1,5 +1,129 @@
-(* C03 -- placeholder, completed below *)
+(* C03 -- Boxes, BD shapes and octagons: every result CONTAINS the exact result, for every coefficient type;
+   definite answers are trustworthy.
+   Every theorem quantifies over an arbitrary [carrier T]: the operations used by the code with their
+   upward-rounding laws (Shapes/ExtNum.v).  That is the "for every type" quantifier.  [Qc] (ExtNum.v) shows
+   the laws are satisfiable; non-vacuity Examples are in Shapes/DBMSound.v and Shapes/Oct.v.
+   Models: Shapes/DBM.v (BD_Shape_templates.hh), Shapes/Oct.v (Octagonal_Shape_templates.hh).
+   The affine transformers and the conversions are not modelled: each of their results is validated by
+   the verified inclusion test on the denotations obtained through the translations proved exact here
+   (C03_sys_of_dbm_exact / _oct_ / _box_). *)
 From Coq Require Import List ZArith QArith.
-Require Import PPLV.Shapes.ExtNum PPLV.Shapes.DBM PPLV.Shapes.DBMSound.
-Theorem C03_closure_sound : forall T (C : carrier T) n m m', diag_ok C n m -> closure C n m = Some m' -> forall p, den C n m p <-> den C n m' p.
+Require Import PPLV.Base.FM PPLV.Base.Sys.
+Require Import PPLV.Shapes.ExtNum PPLV.Shapes.DBM PPLV.Shapes.DBMSound PPLV.Shapes.Oct
+               PPLV.Shapes.Templ PPLV.Shapes.ToSys PPLV.Shapes.OctBridge.
+Local Open Scope Q_scope.
+
+(* ---- BD shapes ---- *)
+Theorem C03_closure_sound : forall T (C : carrier T) n m m',
+  diag_ok C n m -> closure C n m = Some m' -> forall p, den C n m p <-> den C n m' p.
 Proof. intros T C. exact (closure_sound C). Qed.
+
+Theorem C03_closure_empty_sound : forall T (C : carrier T) n m,
+  diag_ok C n m -> closure C n m = None -> forall p, ~ den C n m p.
+Proof. intros T C. exact (closure_empty_sound C). Qed.
+
+Theorem C03_incremental_closure_sound : forall T (C : carrier T) n v m m',
+  diag_ok C n m -> (v <= n)%nat -> inc_closure C n v m = Some m' -> forall p, den C n m p <-> den C n m' p.
+Proof. intros T C. exact (inc_closure_sound C). Qed.
+
+Theorem C03_incremental_closure_empty_sound : forall T (C : carrier T) n v m,
+  diag_ok C n m -> (v <= n)%nat -> inc_closure C n v m = None -> forall p, ~ den C n m p.
+Proof. intros T C. exact (inc_closure_empty_sound C). Qed.
+
+(* adding x_j - x_i <= b with an upward-rounded bound keeps every point of the exact meet, and only tightens *)
+Theorem C03_refine_sound : forall T (C : carrier T) n m i j num d p,
+  (i <= n)%nat -> (j <= n)%nat -> d <> 0%Z -> den C n m p -> p j - p i <= inject_Z num / inject_Z d ->
+  den C n (add_dbm_constraint_q C m i j num d) p.
+Proof. intros T C. exact (refine_q_sound C). Qed.
+
+Theorem C03_refine_only_tightens : forall T (C : carrier T) n m i j k p,
+  den C n (add_dbm_constraint C m i j k) p -> den C n m p.
+Proof. intros T C. exact (refine_only_tightens C). Qed.
+
+Theorem C03_meet_sound : forall T (C : carrier T) n x y p, den C n (meet C x y) p <-> den C n x p /\ den C n y p.
+Proof. intros T C. exact (meet_sound C). Qed.
+
+Theorem C03_ub_sound : forall T (C : carrier T) n x y p, den C n x p \/ den C n y p -> den C n (join C x y) p.
+Proof. intros T C. exact (ub_sound C). Qed.
+
+Theorem C03_forget_sound : forall T (C : carrier T) n v m p w,
+  (0 < v)%nat -> den C n m p -> den C n (forget v m) (fun i => if Nat.eqb i v then w else p i).
+Proof. intros T C. exact (forget_sound C). Qed.
+
+(* definite answers of the comparisons as written in the code *)
+Theorem C03_contains_definite : forall T (C : carrier T) n x y,
+  code_contains C n x y = true -> forall p, den C n y p -> den C n x p.
+Proof. intros T C. exact (contains_sound C). Qed.
+
+Theorem C03_is_disjoint_definite : forall T (C : carrier T) n x y,
+  neg_exact C -> code_is_disjoint C n x y = true -> forall p, den C n x p -> den C n y p -> False.
+Proof. intros T C. exact (disjoint_sound C). Qed.
+
+Theorem C03_equal_definite : forall T (C : carrier T) n x y,
+  code_equal C n x y = true -> forall p, den C n x p <-> den C n y p.
+Proof. intros T C. exact (equal_sound C). Qed.
+
+(* ---- octagons ---- *)
+Theorem C03_strong_closure_sound : forall T (C : carrier T) n m m',
+  oct_diag_ok C n m -> strong_closure C n m = Some m' -> forall p, den_oct C n m p <-> den_oct C n m' p.
+Proof. intros T C. exact (strong_closure_sound C). Qed.
+
+Theorem C03_strong_closure_empty_sound : forall T (C : carrier T) n m,
+  oct_diag_ok C n m -> strong_closure C n m = None -> forall p, ~ den_oct C n m p.
+Proof. intros T C. exact (strong_closure_empty_sound C). Qed.
+
+Theorem C03_incremental_strong_closure_sound : forall T (C : carrier T) n v m m',
+  (S v < 2 * n)%nat -> oct_diag_ok C n m -> incremental_strong_closure C n v m = Some m' ->
+  forall p, den_oct C n m p <-> den_oct C n m' p.
+Proof. intros T C. exact (incremental_strong_closure_sound C). Qed.
+
+Theorem C03_incremental_strong_closure_empty_sound : forall T (C : carrier T) n v m,
+  (S v < 2 * n)%nat -> oct_diag_ok C n m -> incremental_strong_closure C n v m = None -> forall p, ~ den_oct C n m p.
+Proof. intros T C. exact (incremental_strong_closure_empty_sound C). Qed.
+
+Theorem C03_oct_refine_sound : forall T (C : carrier T) n m i j num den p,
+  (i < 2 * n)%nat -> (j < 2 * n)%nat -> stored i j = true -> den <> 0%Z -> den_oct C n m p ->
+  sv p j - sv p i <= inject_Z num / inject_Z den -> den_oct C n (oct_add_constraint_q C m i j num den) p.
+Proof. intros T C. exact (oct_refine_sound C). Qed.
+
+Theorem C03_oct_refine_only_tightens : forall T (C : carrier T) n m i j num den p,
+  (i < 2 * n)%nat -> (j < 2 * n)%nat -> stored i j = true ->
+  den_oct C n (oct_add_constraint_q C m i j num den) p -> den_oct C n m p.
+Proof. intros T C. exact (oct_refine_tightens C). Qed.
+
+Theorem C03_oct_meet_sound : forall T (C : carrier T) n x y p,
+  den_oct C n (oct_meet C x y) p <-> den_oct C n x p /\ den_oct C n y p.
+Proof. intros T C. exact (oct_meet_sound C). Qed.
+
+Theorem C03_oct_ub_sound : forall T (C : carrier T) n x y p,
+  den_oct C n x p \/ den_oct C n y p -> den_oct C n (oct_join C x y) p.
+Proof. intros T C. exact (oct_join_sound C). Qed.
+
+Theorem C03_oct_forget_sound : forall T (C : carrier T) n v m p w,
+  den_oct C n m p -> den_oct C n (oct_forget v m) (pupd p v w).
+Proof. intros T C. exact (oct_forget_sound C). Qed.
+
+(* whole operations (closures composed as the code does) *)
+Theorem C03_oct_upper_bound_op_sound : forall T (C : carrier T) n x y r p,
+  oct_diag_ok C n x -> oct_diag_ok C n y -> oct_upper_bound_op C n x y = Some r ->
+  den_oct C n x p \/ den_oct C n y p -> den_oct C n r p.
+Proof. intros T C. exact (oct_upper_bound_op_sound C). Qed.
+
+Theorem C03_oct_contains_definite : forall T (C : carrier T) n x y,
+  oct_diag_ok C n x -> oct_diag_ok C n y -> oct_contains_op C n x y = true -> forall p, den_oct C n y p -> den_oct C n x p.
+Proof. intros T C. exact (oct_contains_op_sound C). Qed.
+
+Theorem C03_oct_is_disjoint_definite : forall T (C : carrier T) n x y,
+  neg_exact C -> oct_diag_ok C n x -> oct_diag_ok C n y -> oct_is_disjoint_op C n x y = true ->
+  forall p, den_oct C n x p -> den_oct C n y p -> False.
+Proof. intros T C. exact (oct_is_disjoint_op_sound C). Qed.
+
+(* ---- the translations used by the per-result validation are exact ---- *)
+Theorem C03_sys_of_dbm_exact : forall n m q, sat_sys (sys_of_dbm n m) q <-> den Qc n m (ext0 q).
+Proof. exact sys_of_dbm_sat. Qed.
+
+Theorem C03_sys_of_oct_exact : forall n m q, sat_sys (sys_of_oct n m) q <-> den_oct Qc n m q.
+Proof. exact sys_of_oct_den. Qed.
+
+Theorem C03_sys_of_box_exact : forall l q, sat_sys (sys_of_box l) q <-> den_box l q.
+Proof. exact sys_of_box_sat. Qed.
